@@ -34,6 +34,9 @@ func allKindsFields() defMap {
 
 var ak2Fields = defMap{"s": {Kind: "attr", K: "string"}, "back": {Kind: "rel", To1: true, TT: "ak"}}
 
+// ak3 has attributes only (no relationship at all)
+var ak3Fields = defMap{"t": {Kind: "attr", K: "string"}, "u": {Kind: "attr", K: "uint", Null: true}}
+
 var akSchemas = map[string]*jsonapi.Schema{}
 
 // akSchema: type "ak" (all 28 kinds, to-one, to-many) struct-backed or soft,
@@ -48,11 +51,15 @@ func akSchema(impl string) *jsonapi.Schema {
 		must(err)
 		must(s.AddType(typ))
 		must(s.AddType(*softType("ak2", ak2Fields, kindMap{})))
+		must(s.AddType(*softType("ak3", ak3Fields, kindMap{})))
 	} else {
 		must(s.AddType(*softType("ak", allKindsFields(), kindMap{})))
 		typ, err := jsonapi.BuildType(reflect.New(structType("ak2", ak2Fields, kindMap{})).Interface())
 		must(err)
 		must(s.AddType(typ))
+		typ3, err := jsonapi.BuildType(reflect.New(structType("ak3", ak3Fields, kindMap{})).Interface())
+		must(err)
+		must(s.AddType(typ3))
 	}
 	akSchemas[impl] = s
 	return s
@@ -232,6 +239,19 @@ func runRoundTrip(c rtCase) rtEvent {
 					ev.R.LitOK = false
 				}
 			}
+		}
+		// a resource of a type without any relationship, right after one that has them
+		impl3 := "soft"
+		if c.Impl == "soft" {
+			impl3 = "wrap"
+		}
+		r3 := newRes(impl3, "ak3", ak3Fields, kindMap{})
+		r3.Set("id", "three")
+		r3.Set("t", "tv")
+		pl3 := jsonapi.MarshalResource(r3, "/p", []string{"t", "u"}, nil)
+		b3, err3 := jsonapi.UnmarshalResource(pl3, schema)
+		if err3 != nil || b3 == nil || b3.Get("t") != "tv" || b3.Get("id") != "three" || b3.GetType().Name != "ak3" {
+			ev.R.AttrsSame = false
 		}
 		bo, _ := back.Get("o").(string)
 		ev.R.To1Same = bo == o
@@ -627,11 +647,16 @@ type payCase struct {
 	Attrs   map[string]string `json:"attrs"` // name -> raw JSON literal
 	Rels    []relShape        `json:"rels"`
 	Payload string            `json:"payload"`
+	NoID    bool              `json:"noid"` // the payload has no id member (a create request)
 }
 
 func renderPayload(c payCase) string {
 	var b strings.Builder
-	b.WriteString(`{"type":"ak","id":"x1"`)
+	if c.NoID {
+		b.WriteString(`{"type":"ak"`)
+	} else {
+		b.WriteString(`{"type":"ak","id":"x1"`)
+	}
 	if len(c.Attrs) > 0 {
 		b.WriteString(`,"attributes":{`)
 		for i, k := range sortedKeys(c.Attrs) {
@@ -654,6 +679,10 @@ func renderPayload(c payCase) string {
 			rels = append(rels, fmt.Sprintf(`%q:{"data":{"type":"ak2","id":%q}}`, r.Name, r.Listed[0]))
 		case "identbadtype": // an identifier whose type is not the relationship's target type
 			rels = append(rels, fmt.Sprintf(`%q:{"data":{"type":"ak","id":%q}}`, r.Name, r.Listed[0]))
+		case "identnotype": // an identifier without type member
+			rels = append(rels, fmt.Sprintf(`%q:{"data":{"id":%q}}`, r.Name, r.Listed[0]))
+		case "badtypenoid": // another type, and no id
+			rels = append(rels, fmt.Sprintf(`%q:{"data":{"type":"ak"}}`, r.Name))
 		case "list":
 			var ids []string
 			for _, id := range r.Listed {
@@ -689,7 +718,8 @@ func runPayload(c payCase) payEvent {
 	schema := akSchema(c.Impl)
 	payload := []byte(renderPayload(c))
 	for _, r := range c.Rels {
-		if r.Shape == "null" || r.Shape == "ident" || r.Shape == "list" || r.Shape == "identbadtype" {
+		if r.Shape == "null" || r.Shape == "ident" || r.Shape == "list" || r.Shape == "identbadtype" ||
+			r.Shape == "identnotype" || r.Shape == "badtypenoid" {
 			ev.WantRels = append(ev.WantRels, r.Name)
 		}
 	}
@@ -736,7 +766,11 @@ func runPayload(c payCase) payEvent {
 			}
 		}
 		id, _ := full.Get("id").(string)
-		ev.IDType = id == "x1" && full.GetType().Name == "ak"
+		wantID := "x1"
+		if c.NoID {
+			wantID = "" // nothing may be inherited from an earlier payload
+		}
+		ev.IDType = id == wantID && full.GetType().Name == "ak"
 		// re-marshal: id, type, attributes and linkage come out as the same JSON values
 		all, rd := allFieldsOf(full)
 		out := jsonapi.MarshalResource(full, "/p", all, rd)
@@ -803,7 +837,11 @@ func remarshalSame(c payCase, out []byte) bool {
 		return false
 	}
 	var id, typ string
-	if json.Unmarshal(m["id"], &id) != nil || json.Unmarshal(m["type"], &typ) != nil || id != "x1" || typ != "ak" {
+	wantID := "x1"
+	if c.NoID {
+		wantID = ""
+	}
+	if json.Unmarshal(m["id"], &id) != nil || json.Unmarshal(m["type"], &typ) != nil || id != wantID || typ != "ak" {
 		return false
 	}
 	var attrs map[string]json.RawMessage
@@ -1033,8 +1071,32 @@ func codecOtherModes(mode string, rng *rand.Rand, stt *stats, w *evWriter, n int
 				rm.Listed = listed
 			}
 			c.Rels = []relShape{ro, rm}
+			c.NoID = rng.Intn(5) == 0
 			// the second to-one / to-many relationships: map iteration decides which is decoded first
 			so2, sm2 := shapes[rng.Intn(len(shapes))], shapes[rng.Intn(len(shapes))]
+			switch rng.Intn(10) { // rarer identifier forms, for the accept-equivalence of the two entry points
+			case 0:
+				so2 = "identnotype"
+			case 1:
+				so2 = "badtypenoid"
+			}
+			if i >= 49*8 && i < 49*8+40 {
+				// a payload that names every attribute and every relationship, some of them without data
+				c.Attrs = map[string]string{}
+				for _, f := range attrNames {
+					c.Attrs[f] = okLit(f)
+				}
+				so, sm = []string{"nodata", "ident", "null"}[i%3], []string{"nodata", "list"}[i%2]
+				so2, sm2 = []string{"ident", "nodata"}[i%2], []string{"list", "nodata", "null"}[(i/2)%3]
+				ro.Shape, rm.Shape, ro.Listed, rm.Listed = so, sm, []string{}, []string{}
+				if so == "ident" {
+					ro.Listed = []string{"u"}
+				}
+				if sm == "list" {
+					rm.Listed = []string{"v", "u"}
+				}
+				c.Rels = []relShape{ro, rm}
+			}
 			if i < 49*8 {
 				// every pair of shapes for the two to-one (and the two to-many) relationships, eight times each:
 				// which of the two is decoded first is the runtime's choice (map iteration)
@@ -1059,7 +1121,7 @@ func codecOtherModes(mode string, rng *rand.Rand, stt *stats, w *evWriter, n int
 			}
 			ro2 := relShape{Name: "o2", To1: true, Shape: so2, Listed: []string{}}
 			rm2 := relShape{Name: "m2", To1: false, Shape: sm2, Listed: []string{}}
-			if so2 == "ident" || so2 == "identbadtype" {
+			if so2 == "ident" || so2 == "identbadtype" || so2 == "identnotype" {
 				ro2.Listed = []string{"w"}
 			}
 			if so2 == "list" {
@@ -1071,7 +1133,7 @@ func codecOtherModes(mode string, rng *rand.Rand, stt *stats, w *evWriter, n int
 			if sm2 == "list" {
 				rm2.Listed = []string{"x", "w", "x"}
 			}
-			if i%3 != 0 || i < 49*8 {
+			if i%3 != 0 || i < 49*8+40 {
 				c.Rels = append(c.Rels, ro2, rm2)
 			}
 			ev := runPayload(c)
